@@ -32,6 +32,8 @@ def signed_matrix(n, dens, scheme, directed, seed):
         W = rs.randint(1, 4, size=(n, n)) * rs.choice([-1.0, 1.0], size=(n, n))
     elif scheme == 'logu':  # magnitudes over 12 orders: nonzero weights far below any 'rounding noise' threshold
         W = 10.0 ** rs.uniform(-12, 0, size=(n, n)) * rs.choice([-1.0, 1.0], size=(n, n))
+    elif scheme == 'denorm':  # magnitudes whose pairwise products underflow to zero
+        W = 10.0 ** rs.uniform(-300, -160, size=(n, n)) * rs.choice([-1.0, 1.0], size=(n, n))
     elif scheme == 'fewneg':  # mostly positive
         W = np.abs(rs.randn(n, n)) * rs.choice([-1.0, 1.0], size=(n, n), p=[.15, .85])
     else:
@@ -53,7 +55,7 @@ def cases(tier, seed):
     for t in range(nmat):
         n = int(rs.randint(5, nmax + 1))
         dens = float(rs.choice([1.0, 1.0, .8, .5, .3, .15]))
-        scheme = ['normal', 'int', 'fewneg', 'logu'][t % 4]
+        scheme = ['normal', 'int', 'fewneg', 'logu', 'denorm'][t % 5]
         ms = int(rs.randint(1 << 30))
         for f in FUNCS:
             out.append({'f': f, 'n': n, 'dens': dens, 'scheme': scheme, 'ms': ms, 'kind': 'single',
